@@ -671,6 +671,6 @@ func TestProp(t *testing.T) {
 			"entries of BlacklistSnapshot with no remaining time are ignored",
 			"part dial: the scheduler-level clause (blacklisted peers are not dialled) is exercised through the owned scheduler harness with real TCP listeners standing in for peers",
 		},
-		Parts: []pbt.Part{pbt.NewPart("state", 40, gen, run), pbt.NewPart("dial", 1, genDial, runDial)},
+		Parts: []pbt.Part{pbt.NewPart("state", 40, gen, run), pbt.NewPart("dial", 1, genDial, func(c DialCase) pbt.Verdict { return conclusive(runDial(c)) })},
 	})
 }
